@@ -23,6 +23,20 @@ def dec_items(d, cnt, in_class, out):
         elif kind == 2:
             a = d.n()
             out.append(('fwd', impl.TT[a] if a else None, impl.TT[d.n()], d.name(d.n())))
+        elif kind == 4:
+            il = d.b()
+            nms = tuple(d.name(d.n()) for _k in range(d.n()))
+            members = []
+            dec_items(d, d.n(), False, members)
+            out.append(('ns', il, nms, members))
+        elif kind == 5:
+            al = d.name(d.n())
+            out.append(('nsalias', al, tuple('::' if x == 0 else d.name(x) for x in [d.n() for _k in range(d.n())])))
+        elif kind == 6:
+            lk = d.name(d.n())
+            members = []
+            dec_items(d, d.n(), False, members)
+            out.append(('extern', lk, members))
         else:
             a = d.n()
             acc = impl.TT[a] if a else None
@@ -101,12 +115,27 @@ class _TreeRec(impl.SimpleCxxVisitor):
         self.other = True
 
     def on_namespace_start(self, state):
-        self.other = True
+        node = ('ns', state.namespace, [])
+        self.stack[-1].append(node)
+        self.stack.append(node[2])
         return super().on_namespace_start(state)
 
+    def on_namespace_end(self, state):
+        self.stack.pop()
+        return super().on_namespace_end(state)
+
+    def on_namespace_alias(self, state, a):
+        self._add('nsalias', a); super().on_namespace_alias(state, a)
+
     def on_extern_block_start(self, state):
-        self.other = True
+        node = ('extern', state.linkage, [])
+        self.stack[-1].append(node)
+        self.stack.append(node[2])
         return super().on_extern_block_start(state)
+
+    def on_extern_block_end(self, state):
+        self.stack.pop()
+        return super().on_extern_block_end(state)
 
     def on_using_namespace(self, state, x):
         self.other = True; super().on_using_namespace(state, x)
@@ -180,6 +209,14 @@ def conv(items):
             for b in c.bases:
                 bs.append((b.access, _cname(b.typename), b.virtual, b.param_pack))
             out.append(('class', c.access, c.typename.classkey, _cname(c.typename), c.final, c.explicit, tuple(bs), conv(it[2])))
+        elif kind == 'ns':
+            if o.doxygen is not None:
+                raise bodies.Other()
+            out.append(('ns', o.inline, tuple(o.names), conv(it[2])))
+        elif kind == 'nsalias':
+            out.append(('nsalias', o.alias, tuple(o.names)))
+        elif kind == 'extern':
+            out.append(('extern', o, conv(it[2])))
         elif kind == 'fwd':
             if o.template is not None or o.typename.classkey not in KEYS or o.enum_base is not None:
                 raise bodies.Other()
@@ -267,12 +304,31 @@ def gen_class(rng, depth, in_class, td=False):
     return toks, budget, stmts + 1
 
 
-def gen_unit(rng):
+def gen_unit(rng, depth=2):
     from harness.props import c01
     toks, budget, stmts = [], 1, 1
     for _ in range(rng.choice([1, 1, 2, 3])):
         r = rng.random()
-        if r < 0.65:
+        if r < 0.3 and depth > 0:
+            # blocks at namespace scope: namespaces (plain, nested names, inline, anonymous), linkage blocks; aliases
+            q = rng.random()
+            if q < 0.15:
+                t2, b2, s2 = ['namespace', 'al', '='] + rng.choice([['n1'], ['::', 'n1', '::', 'n2'], ['n1', '::', 'n2']]) + [';'], 1, 1
+            else:
+                inner, b2, s2 = gen_unit(rng, depth - 1)
+                if q < 0.75:
+                    head = rng.choice([['namespace', 'n1'], ['namespace', 'n1', '::', 'n2'], ['namespace'], ['inline', 'namespace', 'n3'],
+                                       ['namespace', 'n1', '::', 'n2', '::', 'n3']])
+                else:
+                    head = ['extern', rng.choice(['"C"', '"C++"'])]
+                t2, s2 = head + ['{'] + inner + ['}'], s2 + 2
+        elif r < 0.4:
+            # declarations that start with `inline` / `extern`: dispatched to their own handlers first
+            t2, b2 = c01.gen_mixed_stmt(rng)
+            while t2[0] in ('inline', 'extern'):
+                t2 = t2[1:]
+            t2, s2 = rng.choice([['inline'], ['extern'], ['extern', '"C"'], ['inline', 'static']]) + t2, 1
+        elif r < 0.65:
             t2, b2, s2 = gen_class(rng, rng.choice([0, 1, 2, 3]), False)
         elif r < 0.8:
             t2, b2, s2 = gen_class(rng, rng.choice([0, 1]), False, td=True)
